@@ -631,10 +631,14 @@ def r1d_greedy_keys(repo, rep):
 INT_FIELDS = {'n_test', 'n_geos_max', 'n_pretest_max', 'n_designs', 'treatment_geos_range', 'control_geos_range'}
 
 
+_recognised_but_unguarded = {}
+
+
 def params_normalised(repo):
   """The validators store accepted integer-valued values as int: setattr(self, attr, int(...)) under isinstance(bound/lower, int)."""
   cls = repo.cls('tbrmmdesignparameters.TBRMMDesignParameters')
   ok = {}
+  _recognised_but_unguarded.clear()
   for hname, guard in (('_test_value_vs_threshold', 'bound'), ('_test_range', 'lower')):
     f = cls.methods.get(hname)
     ok[hname] = False
@@ -670,6 +674,16 @@ def params_normalised(repo):
             if int_bound and not on_path and not none_path:
               bypass = True
           ok[hname] = guarded and not bypass
+          _recognised_but_unguarded[hname] = not ok[hname]
+  # not in the recognised form: the conversion may live elsewhere in the module of the parameter class (another method, a
+  # strategy table, a module-level helper) -- that is not decided; only its absence everywhere is a recognised defect
+  converts_somewhere = any(isinstance(c, ast.Call) and ((isinstance(c.func, ast.Name) and c.func.id == 'int')
+                                                          or (isinstance(c.func, ast.Name) and c.func.id == 'map' and c.args and norm(c.args[0]) == 'int')
+                                                          or (isinstance(c.func, ast.Attribute) and c.func.attr == 'astype'))
+                           for c in ast.walk(cls.module.tree))
+  for hname in list(ok):
+    if not ok[hname] and converts_somewhere and not _recognised_but_unguarded.get(hname):
+      ok[hname] = None
   return ok
 
 
@@ -700,10 +714,11 @@ def r1g_integer_parameters(repo, rep, closure):
               continue
             n += 1
             which = '_test_range' if any(x.endswith('_range') for x in flds) else '_test_value_vs_threshold'
-            rep.check(ok.get(which, False), 'R1g/integer-parameters', '%s: %s `%s` uses %s, stored as int by the validator' % (f.name, what, norm(b)[:30], flds), f.qualname,
+            rep.check3(ok.get(which, False), 'R1g/integer-parameters', '%s: %s `%s` uses %s, stored as int by the validator' % (f.name, what, norm(b)[:30], flds), f.qualname,
                       '%s %s <- %s' % (what, norm(b)[:40], ', '.join(flds)),
                       '%s uses the parameter %s as a %s, but the validator accepts integer-valued floats (e.g. 2.0) without converting them to int: range()/slicing then raises TypeError inside the search'
-                      % (f.qualname, ', '.join(flds), what), f.loc(sub))
+                      % (f.qualname, ', '.join(flds), what), f.loc(sub),
+                      why_open='the validator %s does not store int(value) in the recognised form, but the module converts to int elsewhere' % which)
   rep.floor('range()/slice bounds fed by integer-valued parameters', n, 4)
 
 
